@@ -894,6 +894,10 @@ func (r *runner) surviveOn(t Target, cs []Case, mk func() (Target, error)) {
 		return
 	}
 	r.record = false
+	if st, ok := t.(*streamable); ok && st.cfg.Mode == "stateful" {
+		r.secondGet(st)
+		lap("second GET")
+	}
 	r.stalledPeer(t)
 	lap("stalled peer")
 	if r.dead[t] {
@@ -911,6 +915,81 @@ func (r *runner) surviveOn(t Target, cs []Case, mk func() (Target, error)) {
 	if n > base+3 {
 		r.s.Violate(hk.Violation{Fingerprint: "rpc:" + kind + ":goroutine-leak", What: fmt.Sprintf("library goroutines grew from %d to %d over %d inputs and did not come back", base, n, len(cs)),
 			Input: map[string]any{"server": t.Name(), "inputs": len(cs)}})
+	}
+}
+
+// secondGet: a duplicated GET / a reconnect that arrives while the session's first listening stream is still open on the
+// server (which stream survives is C11's subject): the second GET must be answered, and so must, afterwards, the GET of
+// another session, a DELETE and a POST — a server whose stream bookkeeping dead-locks answers none of them.
+func (r *runner) secondGet(t *streamable) {
+	if r.dead[t] {
+		return
+	}
+	type opened struct {
+		code int
+		st   *hk.Stream
+		err  error
+	}
+	open := func(sid string) (opened, bool) {
+		ch := make(chan opened, 1)
+		go func() {
+			code, _, st, err := t.fx.OpenStream(map[string]string{"Mcp-Session-Id": sid})
+			ch <- opened{code, st, err}
+		}()
+		select {
+		case o := <-ch:
+			return o, true
+		case <-time.After(stepCeiling):
+			go func() { // whenever it does come back: hang up
+				if o := <-ch; o.st != nil {
+					o.st.CloseByClient()
+				}
+			}()
+			return opened{}, false
+		}
+	}
+	r.s.About("second GET of a session", map[string]any{"server": t.Name()})
+	vio := func(what, detail string) {
+		r.s.Violate(hk.Violation{Fingerprint: "rpc:streamable:" + what, What: detail,
+			Input:    map[string]any{"server": t.Name(), "scenario": "GET (listening stream) of session A, left open; a second GET of session A; then GET of session B, a POST ping, DELETE of a fresh session"},
+			Expected: "every request is answered (which of the two streams of A stays open is another property's subject)"})
+		if r.dead == nil {
+			r.dead = map[Target]bool{}
+		}
+		r.dead[t] = true
+	}
+	for round := 0; round < 3 && !r.dead[t]; round++ {
+		a, ok := open(t.sids["s1"])
+		if !ok || a.err != nil || a.code != 200 {
+			r.s.Count("second-get:first-not-opened:"+t.Name(), false, map[string]any{"answered": ok, "status": a.code}, "second-get")
+			if !ok {
+				vio("get-unanswered", "the GET of a session that has no stream yet was not answered within "+stepCeiling.String())
+			}
+			return
+		}
+		b, ok := open(t.sids["s1"])
+		if !ok {
+			vio("second-get-unanswered", "a second GET of a session whose first listening stream is still open was not answered within "+stepCeiling.String())
+		}
+		var c opened
+		if !r.dead[t] {
+			if c, ok = open(t.sids["s0"]); !ok {
+				vio("get-unanswered-after-second-get", "after a second GET of session A, the GET of session B was not answered within "+stepCeiling.String())
+			}
+		}
+		for _, o := range []opened{a, b, c} {
+			if o.st != nil {
+				o.st.CloseByClient()
+			}
+		}
+		if !r.dead[t] {
+			if why := t.Alive(); why != "" {
+				vio("not-alive-after-second-get", "after a second GET of a session: "+why)
+			} else if why := t.Handshake(); why != "" {
+				vio("unresponsive-after-second-get", "after a second GET of a session a fresh client is not served: "+why)
+			}
+		}
+		r.s.Count(fmt.Sprintf("second-get:%s:%d", t.Name(), round), !r.dead[t], map[string]any{"second_get_status": b.code, "other_session_get_status": c.code}, "second-get")
 	}
 }
 
